@@ -441,6 +441,31 @@ func buildSubs() []subst {
 		}
 		return n
 	}})
+	// node kind x explicit tag of ANOTHER kind: collections tagged as scalars / as the other
+	// collection kind (odd and even lengths), scalars tagged as collections
+	for _, t := range []string{"!!null", "!!str", "!!map", "!!seq", "!!int", "!!bool", "!!merge"} {
+		for _, k := range []int{1, 2, 3} {
+			t, k := t, k
+			fixed(fmt.Sprintf("seq%d-tagged:%s", k, t), func() *yaml.Node {
+				n := &yaml.Node{Kind: yaml.SequenceNode, Tag: t, Style: yaml.FlowStyle}
+				for i := 0; i < k; i++ {
+					n.Content = append(n.Content, sc("!!str", []string{"main", "b", "c"}[i], 0))
+				}
+				return n
+			})
+		}
+		t := t
+		fixed("seq0-tagged:"+t, func() *yaml.Node { return &yaml.Node{Kind: yaml.SequenceNode, Tag: t, Style: yaml.FlowStyle} })
+		fixed("map1-tagged:"+t, func() *yaml.Node {
+			return &yaml.Node{Kind: yaml.MappingNode, Tag: t, Style: yaml.FlowStyle, Content: []*yaml.Node{sc("!!str", "a", 0), sc("!!str", "b", 0)}}
+		})
+		fixed("map0-tagged:"+t, func() *yaml.Node { return &yaml.Node{Kind: yaml.MappingNode, Tag: t, Style: yaml.FlowStyle} })
+	}
+	for _, t := range []string{"!!map", "!!seq", "!!merge"} {
+		t := t
+		fixed("scalar-tagged:"+t, func() *yaml.Node { return sc(t, "x", yaml.TaggedStyle) })
+		fixed("empty-scalar-tagged:"+t, func() *yaml.Node { return sc(t, "", yaml.TaggedStyle) })
+	}
 	// explicit tags x adversarial scalar texts
 	for _, t := range tagPool {
 		for _, v := range scalarPool {
@@ -707,6 +732,10 @@ func exprWorkflow(s string) []byte {
 	b.WriteString("      - run: " + q("echo ${{ "+s+" }}") + "\n")
 	b.WriteString("      - if: " + q(s) + "\n        run: echo\n")
 	b.WriteString("      - if: " + q("${{ "+s+" }}") + "\n        run: echo\n")
+	// the text as the very END of the scalar: placeholder never closed, no space after it
+	b.WriteString("      - run: " + q("echo ${{ "+s) + "\n")
+	b.WriteString("      - if: " + q("${{"+s) + "\n        run: echo\n")
+	b.WriteString("        env:\n          A: " + q("${{ "+s+"}}") + "\n          B: " + q("x ${{ 1 }} ${{ "+s) + "\n")
 	return []byte(b.String())
 }
 
